@@ -592,19 +592,7 @@ func (ega *EnhancedGroupAggregator) AddPostAggregationExpression(outputField, or
 		// For parameterized functions, always recreate the aggregator with correct parameters
 		// even if it already exists (it was created with default parameters)
 		// A function is considered parameterized if it needs multiple parameters to configure its behavior
-		isParameterized := false
-		if fn, exists := functions.Get(field.FuncName); exists {
-			minArgs := fn.GetMinArgs()
-			maxArgs := fn.GetMaxArgs()
-			// Function is parameterized if:
-			// 1. It requires more than 1 parameter (minArgs > 1), OR
-			// 2. It has optional parameters that can configure its behavior (maxArgs > minArgs && minArgs >= 1)
-			isParameterized = minArgs > 1 || (maxArgs > minArgs && minArgs >= 1)
-			// 3. It takes its extra arguments through Init (e.g. deduplicate(col, true))
-			if _, ok := fn.(functions.ParameterizedFunction); ok {
-				isParameterized = true
-			}
-		}
+		isParameterized := isParameterizedFunction(field.FuncName)
 
 		// Check if field already exists in aggregationFields to avoid duplicates
 		fieldExistsInAggFields := false
@@ -699,18 +687,7 @@ func (ega *EnhancedGroupAggregator) AddPostAggregationExpression(outputField, or
 			}
 
 			// Create aggregator instance
-			// For parameterized functions, create with parameters only when multiple top-level args are present
-			if isParameterized && hasMultipleTopLevelArgs(field.FullCall) {
-				aggregator := ega.createParameterizedAggregator(field)
-				if aggregator != nil {
-					ega.GroupAggregator.aggregators[field.Placeholder] = aggregator
-				} else {
-					// Fallback to simple aggregator
-					ega.GroupAggregator.aggregators[field.Placeholder] = CreateBuiltinAggregator(field.AggType)
-				}
-			} else {
-				ega.GroupAggregator.aggregators[field.Placeholder] = CreateBuiltinAggregator(field.AggType)
-			}
+			ega.GroupAggregator.aggregators[field.Placeholder] = NewCallAggregator(field)
 		}
 	}
 
@@ -800,6 +777,38 @@ func (ega *EnhancedGroupAggregator) GetResults() ([]map[string]any, error) {
 // windows that keep their own running aggregates (global window).
 func (ega *EnhancedGroupAggregator) PostProcessResults(results []map[string]any) ([]map[string]any, error) {
 	return ega.postProcessor.ProcessResults(results)
+}
+
+// isParameterizedFunction reports whether an aggregate function is configured by
+// arguments beyond its input, e.g. percentile(v, 0.5), nth_value(v, 2).
+func isParameterizedFunction(funcName string) bool {
+	fn, exists := functions.Get(funcName)
+	if !exists {
+		return false
+	}
+	// It takes its extra arguments through Init (e.g. deduplicate(col, true))
+	if _, ok := fn.(functions.ParameterizedFunction); ok {
+		return true
+	}
+	// It requires more than 1 parameter (minArgs > 1), or it has optional parameters
+	// that can configure its behavior (maxArgs > minArgs && minArgs >= 1)
+	minArgs, maxArgs := fn.GetMinArgs(), fn.GetMaxArgs()
+	return minArgs > 1 || (maxArgs > minArgs && minArgs >= 1)
+}
+
+// NewCallAggregator returns the aggregator for one aggregate call of a query. A
+// function configured by extra arguments is created with the arguments written in
+// field.FullCall when there are any, every other one from its type alone. Windows
+// that keep their own running aggregates (global window) use it too, so that they
+// compute what the group aggregator computes.
+func NewCallAggregator(field AggregationFieldInfo) AggregatorFunction {
+	if isParameterizedFunction(field.FuncName) && hasMultipleTopLevelArgs(field.FullCall) {
+		if agg := (&EnhancedGroupAggregator{}).createParameterizedAggregator(field); agg != nil {
+			return agg
+		}
+	}
+	// Fallback to simple aggregator
+	return CreateBuiltinAggregator(field.AggType)
 }
 
 // createParameterizedAggregator creates aggregator with parameters for complex functions
